@@ -46,7 +46,7 @@ func enumDHCP(alpha []dOp, depth, i int, cfg dhcpCfg) dhcpHistory {
 var dReqClasses = []string{"", "offered", "offered", "current", "current", "other", "other", "free", "offsubnet", "network", "broadcast", "router", "host", "othersubnet"}
 
 func genDHCPHistory(t *rapid.T) dhcpHistory {
-	h := dhcpHistory{Cfg: dhcpCfg{Net: rapid.IntRange(0, 2).Draw(t, "net"), Mode: rapid.IntRange(1, 3).Draw(t, "mode")}}
+	h := dhcpHistory{Cfg: dhcpCfg{Net: rapid.IntRange(0, 2).Draw(t, "net"), Mode: rapid.IntRange(1, 3).Draw(t, "mode"), Quiet: rapid.IntRange(0, 3).Draw(t, "quiet") == 0}}
 	n := rapid.IntRange(5, 80).Draw(t, "nops")
 	for i := 0; i < n; i++ {
 		op := dOp{K: rapid.SampledFrom([]string{"discover", "discover", "discover", "request", "request", "request", "request", "decline", "release", "capture", "uncapture", "tick", "foreign"}).Draw(t, "k")}
